@@ -675,9 +675,9 @@ pub fn check_skin(s: &SkinSpec) -> Result<Option<String>, Fail> {
 pub struct AnimBoneSpec {
     pub bone_id: u32,
     /// key counts for translation / rotation / scaling (None = track absent)
-    pub t: Option<u8>,
-    pub r: Option<u8>,
-    pub s: Option<u8>,
+    pub t: Option<u16>,
+    pub r: Option<u16>,
+    pub s: Option<u16>,
     pub seed: u32,
 }
 
@@ -715,7 +715,7 @@ pub fn build_anim(s: &AnimSpec) -> AnimFile {
                 .iter()
                 .map(|b| {
                     let mut g = Rg::new(b.seed);
-                    let ts = |g: &mut Rg, n: u8| (0..n).map(|_| g.u32()).collect::<Vec<u32>>();
+                    let ts = |g: &mut Rg, n: u16| (0..n).map(|_| g.u32()).collect::<Vec<u32>>();
                     AnimBoneAnimation {
                         bone_id: b.bone_id,
                         translation: b.t.map(|n| AnimTranslation {
